@@ -177,6 +177,11 @@ func (fr *Frame) opaqueFuncCall(site ssa.Instruction, fv *Term, sig *types.Signa
 	if sig.Results().Len() == 1 {
 		rt0 := sig.Results().At(0).Type()
 		res = freshValue(rt0, "fres", vc.allocN)
+		if sig.Params().Len() == 1 && kindOf(rt0) == "str" && kindOf(sig.Params().At(0).Type()) == "str" {
+			// string -> string function values (the login URL builder of a service provider) are deterministic (A-GETTER)
+			res = App("fnStr1", SStr, fv, args[0].(*Term))
+			vc.assumed["A-GETTER: function values of type func(string) string are deterministic and effect-free"] = true
+		}
 		if sig.Params().Len() == 0 {
 			// value getters are deterministic and effect-free (A-GETTER): their result is a function of the function value
 			switch kindOf(rt0) {
@@ -542,6 +547,7 @@ func (fr *Frame) havocAssigns(ct *Contract, st *State) {
 	for _, a := range ct.Assigns {
 		switch {
 		case a == "*":
+			st.ghost(vc, "msgver")
 			for k, h := range st.Heap {
 				st.Heap[k] = VarB(freshName(k+"@call"), h.S, vc.allocN+2)
 			}
@@ -553,6 +559,7 @@ func (fr *Frame) havocAssigns(ct *Contract, st *State) {
 				st.Heap[k] = HavocAbove(h, vc.allocN, VarB(freshName(k+"@call"), h.S, vc.allocN+2))
 			}
 		case strings.HasPrefix(a, "obj:"):
+			st.Ghost["msgver"] = Add(st.ghost(vc, "msgver"), IntLit(1))
 			// every cell of the object a parameter refers to (and of its nested parts)
 			v, ok := fr.curCallEnv[strings.TrimPrefix(a, "obj:")]
 			if !ok {
